@@ -77,6 +77,11 @@ func (r *responseCache) Get(responseKey string, req *http.Request) (*Response, e
 		return nil, err
 	}
 	entry, err := ParseResponse(data, req)
+	if err == nil && entry.ID != "" && entry.ID != responseKey {
+		// An intact entry that was written for another key (a file copied or
+		// moved inside the cache directory) is not the response of this one.
+		err = fmt.Errorf("entry belongs to key %q", entry.ID)
+	}
 	if err != nil {
 		return nil, newCacheError(
 			err,
